@@ -5,6 +5,7 @@ package interp
 import (
 	"fmt"
 	"go/types"
+	"os"
 	"sort"
 	"strings"
 	"sync"
@@ -16,6 +17,13 @@ import (
 type decision struct {
 	D int32  // branch taken (0/1) or index chosen
 	V uint64 // value compared against, for concretisation decisions
+	K uint8  // kind: 1 branch, 2 concretise, 3 choice
+}
+
+func (c *pathCtx) replayKind(d decision, k uint8) {
+	if d.K != k {
+		c.abort("engine", fmt.Sprintf("replay divergence: recorded decision kind %d, now %d", d.K, k))
+	}
 }
 
 type workItem struct {
@@ -99,7 +107,246 @@ type pathCtx struct {
 	assertsSeen int
 	watchOn  bool
 	watchHits int
+	doms     map[*Term]*byteDom
+	domSkips int
+	pend     []pendingAssert
+	fixed    map[uint64][]fixedTerm
+	nfixed   int
 }
+
+type fixedTerm struct {
+	t *Term
+	v uint64
+}
+
+// pin records that the path condition implies t == v.
+func (c *pathCtx) pin(t *Term, v uint64) {
+	for depth := 0; depth < 8; depth++ {
+		if t.isConst() {
+			return
+		}
+		h := t.hash()
+		dup := false
+		for _, f := range c.fixed[h] {
+			if sameTerm(f.t, t) {
+				dup = true
+			}
+		}
+		if !dup {
+			c.fixed[h] = append(c.fixed[h], fixedTerm{t, v})
+			c.nfixed++
+		}
+		// invert simple wrappers so the inner term is pinned too
+		switch {
+		case t.op == opAdd && t.b.isConst():
+			v = (v - t.b.k) & mask(t.w)
+			t = t.a
+		case t.op == opAdd && t.a.isConst():
+			v = (v - t.a.k) & mask(t.w)
+			t = t.b
+		case t.op == opSub && t.b.isConst():
+			v = (v + t.b.k) & mask(t.w)
+			t = t.a
+		case t.op == opZext && v <= mask(t.a.w):
+			t = t.a
+		case t.op == opSext && uint64(signExt(v&mask(t.a.w), t.a.w))&mask(t.w) == v:
+			v &= mask(t.a.w)
+			t = t.a
+		default:
+			return
+		}
+	}
+}
+
+// subst rewrites t using the pinned terms; the result is equivalent to t under
+// the path condition.
+func (c *pathCtx) subst(t *Term) *Term {
+	if c.nfixed == 0 || t.isConst() {
+		return t
+	}
+	memo := map[*Term]*Term{}
+	var rec func(t *Term) *Term
+	rec = func(t *Term) *Term {
+		if t.op == opConst {
+			return t
+		}
+		if r, ok := memo[t]; ok {
+			return r
+		}
+		var r *Term
+		for _, f := range c.fixed[t.hash()] {
+			if sameTerm(f.t, t) {
+				r = mkConst(t.w, f.v)
+				if t.w == 0 {
+					r = mkBool(f.v == 1)
+				}
+			}
+		}
+		if r == nil {
+			if t.op == opVar {
+				r = t
+			} else {
+				var a, b, cc *Term
+				if t.a != nil {
+					a = rec(t.a)
+				}
+				if t.b != nil {
+					b = rec(t.b)
+				}
+				if t.c != nil {
+					cc = rec(t.c)
+				}
+				if a == t.a && b == t.b && cc == t.c {
+					r = t
+				} else {
+					r = rebuild(t, a, b, cc)
+				}
+			}
+		}
+		memo[t] = r
+		return r
+	}
+	return rec(t)
+}
+
+type pendingAssert struct {
+	t     *Term
+	label string
+	stack []string
+	nev   int
+}
+
+// byteDom is the set of values an 8-bit (or boolean) variable can still take
+// according to the path-condition terms that depend on that variable alone.
+type byteDom struct {
+	set       [4]uint64
+	pending   []*Term // single-variable pc terms not yet applied
+	entangled bool    // the variable also occurs in multi-variable pc terms
+}
+
+func (d *byteDom) has(v uint64) bool { return d.set[v>>6]&(1<<(v&63)) != 0 }
+
+func (c *pathCtx) domOf(x *Term) *byteDom {
+	d := c.doms[x]
+	if d == nil {
+		d = &byteDom{}
+		n := uint64(256)
+		if x.w == 0 {
+			n = 2
+		}
+		for v := uint64(0); v < n; v++ {
+			d.set[v>>6] |= 1 << (v & 63)
+		}
+		c.doms[x] = d
+	}
+	for _, t := range d.pending {
+		for w := 0; w < 4; w++ {
+			bits := d.set[w]
+			for bits != 0 {
+				b := uint64(trailingZeros(bits))
+				bits &^= 1 << b
+				v := uint64(w)<<6 | b
+				if evalSingle(t, v) != 1 {
+					d.set[w] &^= 1 << b
+				}
+			}
+		}
+	}
+	d.pending = nil
+	return d
+}
+
+func trailingZeros(x uint64) int {
+	n := 0
+	for x&1 == 0 {
+		x >>= 1
+		n++
+	}
+	return n
+}
+
+// notePC records a new path-condition term in the byte domains.
+func (c *pathCtx) notePC(t *Term) {
+	if t.multi {
+		c.markEntangled(t, 0)
+		return
+	}
+	if x := t.sup; x != nil && x.w <= 8 && t.size <= 400 {
+		d := c.doms[x]
+		if d == nil {
+			d = c.domOf(x)
+		}
+		d.pending = append(d.pending, t)
+	} else if x != nil {
+		// wide single variable: domain not tracked
+	}
+}
+
+func (c *pathCtx) markEntangled(t *Term, depth int) {
+	if t == nil || (!t.multi && t.sup == nil) {
+		return
+	}
+	if !t.multi {
+		if t.sup.w <= 8 {
+			c.domOf(t.sup).entangled = true
+		}
+		return
+	}
+	c.markEntangled(t.a, depth+1)
+	c.markEntangled(t.b, depth+1)
+	c.markEntangled(t.c, depth+1)
+}
+
+// quickDecide tries to decide a single-byte-variable condition without the
+// solver. It returns (feasibleTrue, feasibleFalse, decided, witness value for
+// the side the current model does not take).
+func (c *pathCtx) quickDecide(t *Term) (ft, ff, decided bool, d *byteDom) {
+	if t.multi || t.sup == nil || t.sup.w > 8 || t.size > 400 {
+		return false, false, false, nil
+	}
+	d = c.domOf(t.sup)
+	for w := 0; w < 4; w++ {
+		bits := d.set[w]
+		for bits != 0 {
+			b := uint64(trailingZeros(bits))
+			bits &^= 1 << b
+			if evalSingle(t, uint64(w)<<6|b) == 1 {
+				ft = true
+			} else {
+				ff = true
+			}
+			if ft && ff {
+				break
+			}
+		}
+	}
+	if !ft || !ff {
+		// one side is impossible already by this variable's own constraints: sound
+		return ft, ff, true, d
+	}
+	if d.entangled {
+		return ft, ff, false, d
+	}
+	return true, true, true, d
+}
+
+// pickValue returns a value of d's variable for which t evaluates to want.
+func (d *byteDom) pickValue(t *Term, want bool) (uint64, bool) {
+	for w := 0; w < 4; w++ {
+		bits := d.set[w]
+		for bits != 0 {
+			b := uint64(trailingZeros(bits))
+			bits &^= 1 << b
+			v := uint64(w)<<6 | b
+			if (evalSingle(t, v) == 1) == want {
+				return v, true
+			}
+		}
+	}
+	return 0, false
+}
+
+var _ = fmt.Sprint
 
 // Explorer runs one harness entry point over all feasible paths.
 type Explorer struct {
@@ -207,6 +454,7 @@ func (c *pathCtx) newVar(name string, k types.BasicKind) value {
 
 func (c *pathCtx) addPC(t *Term) {
 	c.pc = append(c.pc, t)
+	c.notePC(t)
 }
 
 func (c *pathCtx) flushPC() {
@@ -254,8 +502,12 @@ func (c *pathCtx) branch(t *Term) bool {
 	if t.isConst() {
 		return t.k == 1
 	}
+	if st := c.subst(t); st.isConst() {
+		return st.k == 1
+	}
 	if n := len(c.trace); n < len(c.prefix) {
 		d := c.prefix[n]
+		c.replayKind(d, 1)
 		c.trace = append(c.trace, d)
 		if d.D == 1 {
 			c.addPC(t)
@@ -272,14 +524,37 @@ func (c *pathCtx) branch(t *Term) bool {
 	} else {
 		other = t
 	}
-	c.flushPC()
-	res, m := c.solver.Check(other, c.vars, true)
-	d := decision{D: int32(b2u(v))}
+	d := decision{D: int32(b2u(v)), K: 1}
+	var res SatResult
+	var m Model
+	if ft, ff, decided, dom := c.quickDecide(t); decided {
+		c.domSkips++
+		otherFeasible := ff
+		if !v {
+			otherFeasible = ft
+		}
+		if otherFeasible {
+			// the variable is constrained only by its own domain: build the
+			// sibling's model by changing this one variable
+			val, _ := dom.pickValue(t, !v)
+			m = Model{}
+			for k, x := range c.model {
+				m[k] = x
+			}
+			m[t.sup.name] = val
+			res = Sat
+		} else {
+			res = Unsat
+		}
+	} else {
+		c.flushPC()
+		res, m = c.solver.Check(other, c.vars, true)
+	}
 	switch res {
 	case Sat:
 		alt := make([]decision, len(c.trace)+1)
 		copy(alt, c.trace)
-		alt[len(c.trace)] = decision{D: int32(b2u(!v))}
+		alt[len(c.trace)] = decision{D: int32(b2u(!v)), K: 1}
 		c.ex.push(workItem{prefix: alt, model: m})
 	case Unknown:
 		c.ex.noteInconclusive("branch: " + c.solver.LastErr)
@@ -305,10 +580,20 @@ func (c *pathCtx) concretize(t *Term) uint64 {
 	if t.isConst() {
 		return t.k
 	}
+	v := c.concretize1(t)
+	c.pin(t, v)
+	return v
+}
+
+func (c *pathCtx) concretize1(t *Term) uint64 {
+	if st := c.subst(t); st.isConst() {
+		return st.k
+	}
 	tries := 0
 	for {
 		if n := len(c.trace); n < len(c.prefix) {
 			d := c.prefix[n]
+			c.replayKind(d, 2)
 			c.trace = append(c.trace, d)
 			eq := mkCmp(opEq, t, mkConst(t.w, d.V))
 			if d.D == 1 {
@@ -331,12 +616,12 @@ func (c *pathCtx) concretize(t *Term) uint64 {
 		case Sat:
 			alt := make([]decision, len(c.trace)+1)
 			copy(alt, c.trace)
-			alt[len(c.trace)] = decision{D: 0, V: v}
+			alt[len(c.trace)] = decision{D: 0, V: v, K: 2}
 			c.ex.push(workItem{prefix: alt, model: m})
 		case Unknown:
 			c.ex.noteInconclusive("concretize: " + c.solver.LastErr)
 		}
-		c.record(decision{D: 1, V: v})
+		c.record(decision{D: 1, V: v, K: 2})
 		c.addPC(eq)
 		return v
 	}
@@ -349,21 +634,33 @@ func (c *pathCtx) choose(n int) int {
 	}
 	if k := len(c.trace); k < len(c.prefix) {
 		d := c.prefix[k]
+		c.replayKind(d, 3)
+		if int(d.D) >= n {
+			c.abort("engine", "replay divergence: choice out of range")
+		}
 		c.trace = append(c.trace, d)
 		return int(d.D)
 	}
 	for alt := n - 1; alt >= 1; alt-- {
 		p := make([]decision, len(c.trace)+1)
 		copy(p, c.trace)
-		p[len(c.trace)] = decision{D: int32(alt)}
+		p[len(c.trace)] = decision{D: int32(alt), K: 3}
 		c.ex.push(workItem{prefix: p, model: c.model})
 	}
-	c.record(decision{D: 0})
+	c.record(decision{D: 0, K: 3})
 	return 0
 }
 
 // assume constrains the path; aborts it if infeasible.
 func (c *pathCtx) assume(t *Term) {
+	if t.isTrue() {
+		return
+	}
+	c.flushAsserts()
+	c.assumeNoFlush(t)
+}
+
+func (c *pathCtx) assumeNoFlush(t *Term) {
 	if t.isTrue() {
 		return
 	}
@@ -391,14 +688,15 @@ func (c *pathCtx) inputValues(m Model) map[string]uint64 {
 	return r
 }
 
-// check discharges an assertion. Returns normally if it holds on this path
-// (or was a known finding); otherwise records the violation and aborts the path.
+// check registers an assertion. Assertions are discharged in batches (one
+// query for the disjunction of their negations) at the next assume, known-
+// finding change, or end of path; the path continues without assuming them.
 func (c *pathCtx) check(t *Term, label string, fr *frame) {
 	c.assertsSeen++
 	if len(c.trace) < len(c.prefix) {
 		// Before the divergence point of this work item: the same assertion
-		// under the same path condition was discharged by the ancestor path.
-		c.addPC(t)
+		// under the same path condition is discharged by the ancestor path
+		// (every path extending the common prefix carries it).
 		return
 	}
 	c.oblig++
@@ -406,8 +704,63 @@ func (c *pathCtx) check(t *Term, label string, fr *frame) {
 		c.dischg++
 		return
 	}
+	if len(c.knownAct) > 0 || t.isFalse() {
+		c.flushAsserts()
+		c.checkNow(t, label, stackOf(fr))
+		return
+	}
+	c.pend = append(c.pend, pendingAssert{t: t, label: label, stack: stackOf(fr), nev: len(c.events)})
+	if len(c.pend) >= 32 {
+		c.flushAsserts()
+	}
+}
+
+// flushAsserts discharges the pending assertions with one query.
+func (c *pathCtx) flushAsserts() {
+	if len(c.pend) == 0 {
+		return
+	}
+	pend := c.pend
+	c.pend = nil
+	bad := termFalse
+	for _, p := range pend {
+		bad = mkOr(bad, mkNot(p.t))
+	}
+	var viol Model
+	if c.model != nil && len(c.trace) >= len(c.prefix) && c.evalBool(bad) {
+		viol = c.model
+	} else {
+		c.flushPC()
+		res, m := c.solver.Check(bad, c.vars, true)
+		switch res {
+		case Sat:
+			viol = m
+		case Unknown:
+			c.ex.noteInconclusive("assert batch: " + c.solver.LastErr)
+			return
+		}
+	}
+	if viol == nil {
+		c.dischg += len(pend)
+		return
+	}
+	ev := newEvaluator(viol)
+	for _, p := range pend {
+		if ev.eval(p.t) == 0 {
+			evs := c.events
+			if p.nev <= len(evs) {
+				evs = evs[:p.nev]
+			}
+			c.ex.addViolation(Violation{Kind: "assert", Label: p.label, Inputs: c.inputValues(viol), Stack: p.stack, Trace: append([]decision(nil), c.trace...), Events: append([]string(nil), evs...)})
+			c.abort("violation", p.label)
+		}
+	}
+	c.abort("engine", "assert batch: sat model violates no member")
+}
+
+// checkNow discharges one assertion immediately (known-finding regions, Fail).
+func (c *pathCtx) checkNow(t *Term, label string, stack []string) {
 	neg := mkNot(t)
-	// Known-finding regions active on this path.
 	var knownIDs []string
 	for id := range c.knownAct {
 		knownIDs = append(knownIDs, id)
@@ -433,10 +786,9 @@ func (c *pathCtx) check(t *Term, label string, fr *frame) {
 		}
 	}
 	if viol != nil {
-		c.ex.addViolation(Violation{Kind: "assert", Label: label, Inputs: c.inputValues(viol), Stack: stackOf(fr), Trace: append([]decision(nil), c.trace...), Events: append([]string(nil), c.events...)})
+		c.ex.addViolation(Violation{Kind: "assert", Label: label, Inputs: c.inputValues(viol), Stack: stack, Trace: append([]decision(nil), c.trace...), Events: append([]string(nil), c.events...)})
 		c.abort("violation", label)
 	}
-	// Inside known regions: report hits.
 	for _, id := range knownIDs {
 		in := mkAnd(neg, c.knownAct[id])
 		if in.isFalse() {
@@ -449,15 +801,9 @@ func (c *pathCtx) check(t *Term, label string, fr *frame) {
 		}
 	}
 	c.dischg++
-	// Continue under the assumption that the assertion holds.
-	if len(knownIDs) > 0 {
-		c.assume(t)
-	} else {
-		c.addPC(t)
-		if c.model != nil && !c.evalBool(t) {
-			c.model = nil
-		}
-	}
+	// Continue under the assumption that the assertion holds (inside a known
+	// region the run continues with inputs outside it).
+	c.assumeNoFlush(t)
 }
 
 func stackOf(fr *frame) []string {
@@ -514,3 +860,48 @@ func (ex *Explorer) Summary() string {
 		ex.Paths, ex.PathsOK, ex.Infeasible, ex.Truncated, ex.EngineErr, ex.Inconcl, ex.Oblig, ex.Discharged, len(ex.Violations), ex.Queries, ex.SolveTime.Seconds())
 	return sb.String()
 }
+
+var qlog func(t *Term, res SatResult, d time.Duration)
+
+func init() {
+	if os.Getenv("SYMGO_QLOG") == "" {
+		return
+	}
+	var mu sync.Mutex
+	hist := map[string]*[3]float64{}
+	qlog = func(t *Term, res SatResult, d time.Duration) {
+		k := t.String()
+		if len(k) > 160 {
+			k = k[:160]
+		}
+		k = res.String() + " " + k
+		mu.Lock()
+		h := hist[k]
+		if h == nil {
+			h = &[3]float64{}
+			hist[k] = h
+		}
+		h[0]++
+		h[1] += d.Seconds()
+		mu.Unlock()
+	}
+	QLogDump = func() {
+		type kv struct {
+			k string
+			v [3]float64
+		}
+		var all []kv
+		for k, v := range hist {
+			all = append(all, kv{k, *v})
+		}
+		sort.Slice(all, func(i, j int) bool { return all[i].v[1] > all[j].v[1] })
+		for i, e := range all {
+			if i > 40 {
+				break
+			}
+			fmt.Fprintf(os.Stderr, "%6.0f %7.2fs %s\n", e.v[0], e.v[1], e.k)
+		}
+	}
+}
+
+var QLogDump = func() {}
